@@ -134,6 +134,121 @@ def register(S):
             return None
         return ctx.ret(ctx.top_ret())
 
+    def fork_bool(ctx, cond):
+        """-> [(state, truth)] over the feasible values of a boolean operand"""
+        if isinstance(cond, Choice):
+            j = ctx.ip.join_choice(cond)
+            cond = j if j is not None else IntVal.top(BOOL)
+        if isinstance(cond, IntVal) and cond.is_const():
+            return [(ctx.st, bool(cond.lo))]
+        outs = []
+        for want in (1, 0):
+            s2 = ctx.st.copy()
+            if not isinstance(cond, IntVal) or ctx.ip.assume_bool(s2, cond, want):
+                outs.append((s2, bool(want)))
+        return outs
+
+    @S.on("core::bool::<impl bool>::then", "core::bool::<impl bool>::then_some")
+    def bool_then(ctx):
+        dest, target = ctx.dest, ctx.target
+        lazy = ctx.path.endswith("::then")
+        outs = []
+        for s2, truth in fork_bool(ctx, ctx.args[0]):
+            if not truth:
+                ctx.ip.finish_call(s2, dest, target, NONE)
+            elif not lazy:
+                ctx.ip.finish_call(s2, dest, target, some(ctx.args[1]))
+            elif not ctx.call_closure_on(s2, ctx.args[1], [], lambda ip, st, rv: ip.finish_call(st, dest, target, some(rv))):
+                return NotImplemented
+            outs.append(s2)
+        return outs
+
+    @S.on("core::option::Option::<T>::zip")
+    def option_zip(ctx):
+        for i in (0, 1):
+            r = split_enum_top(ctx, i, OPTION, OPT_VARS)
+            if r is not None:
+                return r
+        a, b = ctx.args[0], ctx.args[1]
+        if a.variant == 0 or b.variant == 0:
+            return ctx.ret(NONE)
+        return ctx.ret(some(TupleVal([a.fields[0], b.fields[0]])))
+
+    @S.on("core::option::Option::<T>::xor", "core::option::Option::<T>::or", "core::option::Option::<T>::and")
+    def option_xor_or_and(ctx):
+        for i in (0, 1):
+            r = split_enum_top(ctx, i, OPTION, OPT_VARS)
+            if r is not None:
+                return r
+        a, b = ctx.args[0], ctx.args[1]
+        op = ctx.path.rsplit("::", 1)[1]
+        if op == "or":
+            return ctx.ret(a if a.variant == 1 else b)
+        if op == "and":
+            return ctx.ret(b if a.variant == 1 else NONE)
+        if a.variant == 1 and b.variant == 0:
+            return ctx.ret(a)
+        if a.variant == 0 and b.variant == 1:
+            return ctx.ret(b)
+        return ctx.ret(NONE)
+
+    @S.on("core::option::Option::<T>::or_else")
+    def option_or_else(ctx):
+        r = split_enum_top(ctx, 0, OPTION, OPT_VARS)
+        if r is not None:
+            return r
+        a = ctx.args[0]
+        if a.variant == 1:
+            return ctx.ret(a)
+        dest, target = ctx.dest, ctx.target
+        if ctx.call_closure(ctx.args[1], [], lambda ip, st, rv: ip.finish_call(st, dest, target, rv)):
+            return None
+        return ctx.ret(ctx.top_ret())
+
+    @S.on("core::option::Option::<T>::ok_or_else")
+    def option_ok_or_else(ctx):
+        r = split_enum_top(ctx, 0, OPTION, OPT_VARS)
+        if r is not None:
+            return r
+        a = ctx.args[0]
+        if a.variant == 1:
+            return ctx.ret(ok(a.fields[0]))
+        dest, target = ctx.dest, ctx.target
+        if ctx.call_closure(ctx.args[1], [], lambda ip, st, rv: ip.finish_call(st, dest, target, err(rv))):
+            return None
+        return ctx.ret(ctx.top_ret())
+
+    @S.on("core::option::Option::<T>::is_some_and", "core::option::Option::<T>::is_none_or",
+          "core::result::Result::<T, E>::is_ok_and", "core::result::Result::<T, E>::is_err_and")
+    def option_is_some_and(ctx):
+        isopt = "option::Option" in ctx.path
+        r = split_enum_top(ctx, 0, OPTION if isopt else RESULT, OPT_VARS if isopt else RES_VARS)
+        if r is not None:
+            return r
+        a = ctx.args[0]
+        op = ctx.path.rsplit("::", 1)[1]
+        hit = {"is_some_and": 1, "is_none_or": 1, "is_ok_and": 0, "is_err_and": 1}[op]
+        if a.variant != hit:
+            return ctx.ret(IntVal.const(BOOL, 1 if op == "is_none_or" else 0))
+        dest, target = ctx.dest, ctx.target
+        if ctx.call_closure(ctx.args[1], [a.fields[0]], lambda ip, st, rv: ip.finish_call(st, dest, target, rv)):
+            return None
+        return ctx.ret(ctx.top_ret())
+
+    @S.on("core::result::Result::<T, E>::and_then", "core::result::Result::<T, E>::or_else")
+    def result_and_then(ctx):
+        r = split_enum_top(ctx, 0, RESULT, RES_VARS)
+        if r is not None:
+            return r
+        a = ctx.args[0]
+        good = 0 if ctx.path.endswith("and_then") else 1
+        if a.variant != good:
+            return ctx.ret(a)
+        dest, target = ctx.dest, ctx.target
+        if ctx.call_closure(ctx.args[1], [a.fields[0]], lambda ip, st, rv: ip.finish_call(st, dest, target, rv)):
+            return None
+        return ctx.ret(ctx.top_ret())
+
     @S.on("core::option::Option::<T>::filter")
     def option_filter(ctx):
         r = split_enum_top(ctx, 0, OPTION, OPT_VARS)
@@ -164,6 +279,25 @@ def register(S):
             ip.finish_call(s2, dest, target, NONE)
             return [st, s2]
         if ctx.call_closure(ctx.args[1], [xref], done):
+            return None
+        return ctx.ret(ctx.top_ret())
+
+    @S.on("core::result::Result::<T, E>::map_or", "core::result::Result::<T, E>::map_or_else")
+    def result_map_or(ctx):
+        r = split_enum_top(ctx, 0, RESULT, RES_VARS)
+        if r is not None:
+            return r
+        a = ctx.args[0]
+        dest, target = ctx.dest, ctx.target
+
+        def done(ip, st, rv):
+            return ip.finish_call(st, dest, target, rv)
+        if a.variant == 0:
+            if ctx.call_closure(ctx.args[2], [a.fields[0]], done):
+                return None
+        elif ctx.path.endswith("map_or"):
+            return ctx.ret(ctx.args[1])
+        elif ctx.call_closure(ctx.args[1], [a.fields[0]], done):
             return None
         return ctx.ret(ctx.top_ret())
 
@@ -1015,7 +1149,24 @@ def register(S):
         elif rty and rty.get("k") == "adt" and rty["path"] in ("alloc::vec::Vec", "alloc::string::String"):
             d = Opaque.make("string" if rty["path"].endswith("String") else "vec", elems=(), n=0, summary=None)
         if d is None:
-            return NotImplemented
+            # a workspace type: run its Default impl
+            fn = None
+            if rty and rty.get("k") == "adt":
+                for f in ctx.ip.prog.fns.values():
+                    im = f.get("impl")
+                    if f.get("name") == "default" and im and im.get("trait_def") == "core::default::Default" and im["self_ty"].get("k") == "adt" and im["self_ty"]["path"] == rty["path"]:
+                        fn = f
+                        break
+            if fn is None:
+                return NotImplemented
+            dest, target, loc = ctx.dest, ctx.target, ref.loc
+
+            def done(ip, st, rv):
+                old_v = ip.read_loc(st, loc)
+                ip.write_loc(st, loc, rv)
+                return ip.finish_call(st, dest, target, old_v)
+            ctx.ip.call_fn(ctx.st, fn, [], on_return=done)
+            return None
         v = ctx.ip.read_loc(ctx.st, ref.loc)
         ctx.ip.write_loc(ctx.st, ref.loc, d)
         return ctx.ret(v)
